@@ -78,6 +78,38 @@ let add_path name (a, b) (c, d) =
   | "div" -> if Zar.equal (Zar.gcd a c) Zar.one && Zar.equal (Zar.gcd b d) Zar.one then "path=no-cross" else "path=cross-gcd"
   | _ -> ""
 
+(* round 4: which impl_binop_with_int! / impl_binop_assign_by_taking! row of rational/src/{add,mul,div}.rs a case exercises
+   (the name of the definition regenerated for that row): per-row counters in the evidence (path:<op>:ROW-...) *)
+let int_row relaxed name u =
+  let ty = if relaxed then "Relaxed" else "RBig" and it = if u then "UBig" else "IBig" in
+  let tr = (match name with "addi" | "iadd" -> "Add" | "subi" | "isub" -> "Sub" | "muli" | "imul" -> "Mul" | _ -> "Div") in
+  if String.get name 0 = 'i' then Printf.sprintf "ROW-gen_%s_%s_%s" tr it ty else Printf.sprintf "ROW-gen_%s_%s_%s" tr ty it
+let assign_row relaxed name form =
+  if form = "av" || form = "ar" then
+    Printf.sprintf "+ROW-gen_%sAssign_%s" (String.capitalize_ascii name) (if relaxed then "Relaxed" else "RBig")
+  else ""
+
+let err_name = function 0 -> "InvalidDigit" | 1 -> "NoDigits" | 2 -> "UnsupportedRadix" | 3 -> "InconsistentRadix" | _ -> "?"
+(* a piece of the text as the generator describes it: a hex integer, or eN / eI / eU = the integer parser fails *)
+let piece_res tok : Zar.t result = match tok with
+  | "eN" -> Err (Zar.of_int 1) | "eI" -> Err Zar.zero | "eU" -> Err (Zar.of_int 2) | t -> Ok (z t)
+let parse_tokens show = function
+  | Ok r -> "ok " ^ show r
+  | Err e -> "err " ^ err_name (Zar.to_int e)
+  | Panic r -> "panic " ^ reason_s r
+  | OutOfFuel -> "outoffuel"
+(* RBig: exactly the specification; Relaxed: same error / positive denominator and same value; fidelity: the generated parser *)
+let judge_parse relaxed (spec : (Zar.t * Zar.t) result) (gen : (Zar.t * Zar.t) result) suffix got =
+  let fidelity = "asis=" ^ (if split_ws (parse_tokens rat_s gen ^ suffix) = got then "same" else "diff") in
+  match spec, got with
+  | Ok s_, "ok" :: n :: d :: rest when relaxed ->
+    if Zar.sign (z d) > 0 && veqb (z n, z d) s_ && rest = split_ws suffix then pass ~extra:(fidelity ^ " cls=parse-ok") ()
+    else fail ("value " ^ rat_s s_ ^ suffix)
+  | Ok _, _ when relaxed -> fail (parse_tokens rat_s spec ^ suffix)
+  | Ok _, _ -> expect ~extra:(fidelity ^ " cls=parse-ok") (parse_tokens rat_s spec ^ suffix) got
+  | Err e, _ -> expect ~extra:(fidelity ^ " cls=parse-err-" ^ err_name (Zar.to_int e)) (parse_tokens rat_s spec) got
+  | _, _ -> expect ~extra:fidelity (parse_tokens rat_s spec) got
+
 (* one operation on one flavour. relaxed=false: RBig *)
 let judge_op relaxed name args got =
   let a i = z (List.nth args i) in
@@ -96,7 +128,12 @@ let judge_op relaxed name args got =
     let spec = bind (opnd_spec 1) (fun x -> bind (opnd_spec 3) (fun y -> bin_spec o x y)) in
     let asis = bind (opnd_asis 1) (fun x -> bind (opnd_asis 3) (fun y -> (if relaxed then xbin_asis else bin_asis) o x y)) in
     let gen = bind (opnd_gen 1) (fun x -> bind (opnd_gen 3) (fun y -> (if relaxed then gxbin else gbin) o x y)) in
-    let extra = match opnd_spec 1, opnd_spec 3 with Ok x, Ok y -> add_path name x y | _ -> "" in
+    let extra = match opnd_spec 1, opnd_spec 3 with Ok x, Ok y -> add_path name x y ^ (if name = "reme" then "" else assign_row relaxed name (s 0)) | _ -> "" in
+    (* the in-place forms (av / ar) go through the regenerated impl_binop_assign_by_taking! rows *)
+    let gen = if (s 0 = "av" || s 0 = "ar") && name <> "reme" then
+        (let a_ = (match o with OAdd -> AAdd | OSub -> ASub | OMul -> AMul | ODiv -> ADiv | _ -> ARem) in
+         bind (opnd_gen 1) (fun x -> bind (opnd_gen 3) (fun y -> (if relaxed then gxassign else gassign) a_ x y)))
+      else gen in
     fin_rat ~extra ~gen spec asis
   | "dive" ->
     let spec = bind (opnd_spec 1) (fun x -> bind (opnd_spec 3) (fun y -> dive_spec x y)) in
@@ -121,14 +158,14 @@ let judge_op relaxed name args got =
     let asis = bind (opnd_asis 2) (fun x -> (if relaxed then xint_asis else int_asis) u o x i) in
     let left = (String.get name 0 = 'i') in      (* iadd / isub / imul / idiv: the integer is the left operand *)
     let gen = bind (opnd_gen 2) (fun x -> (if relaxed then gxint else gint) left u o x i) in
-    fin_rat ~gen spec asis
+    fin_rat ~extra:("path=" ^ int_row relaxed name u) ~gen spec asis
   | "neg" | "inv" ->
     let o = unop_of name in
-    let gen = bind (opnd_gen 1) (gun relaxed o) in
+    let gen = bind (opnd_gen 1) (gun4 relaxed (s 0 = "r") o) in
     fin_rat ~gen (bind (opnd_spec 1) (un_spec o)) (bind (opnd_asis 1) (un_asis o))
   | "abs" | "sqr" | "cubic" | "fract" ->
     let o = unop_of name in
-    let gen = bind (opnd_gen 0) (gun relaxed o) in
+    let gen = bind (opnd_gen 0) (gun4 relaxed false o) in
     fin_rat ~gen (bind (opnd_spec 0) (un_spec o)) (bind (opnd_asis 0) (un_asis o))
   | "signum" ->
     (* answer: signum pair, sign token, is_zero flag *)
@@ -143,7 +180,7 @@ let judge_op relaxed name args got =
       (bind (opnd_spec 1) (fun x -> Ok (mulsign_spec sg x))) (bind (opnd_asis 1) (fun x -> Ok (mulsign_asis sg x)))
   | "pow" ->
     let e = a 0 in
-    fin_rat ~gen:(bind (opnd_gen 1) (fun x -> Ok (gpow x e)))
+    fin_rat ~gen:(bind (opnd_gen 1) (fun x -> Ok ((if relaxed then gen_Relaxed_pow else gen_RBig_pow) x e)))
       (bind (opnd_spec 1) (fun x -> Ok (pow_spec x e))) (bind (opnd_asis 1) (fun x -> Ok (pow_asis x e)))
   | "from_parts" ->
     (* Relaxed: additionally through reduce2 on 64-bit word lists (Reduce2WordsModel.v) *)
@@ -163,7 +200,11 @@ let judge_op relaxed name args got =
      | r, _ -> expect (res_s rat_s r) got)
   | "fromi" | "fromu" ->
     (* From<IBig/UBig/primitive>: the integer over one, which is canonical (C04_from_integer) *)
-    judge_exact rat_s (Ok (canon (a 0) Zar.one)) (Ok (from_int_asis (a 0))) got
+    let g = (match relaxed, name with
+        | false, "fromi" -> gen_RBig_from_IBig | false, _ -> gen_RBig_from_UBig
+        | true, "fromi" -> gen_Relaxed_from_IBig | true, _ -> gen_Relaxed_from_UBig) (a 0) in
+    let gp = (if relaxed then gen_Relaxed_from_prim else gen_RBig_from_prim) (a 0) in
+    judge_exact ~gen:(if g = gp then Ok g else OutOfFuel) rat_s (Ok (canon (a 0) Zar.one)) (Ok (from_int_asis (a 0))) got
   | "fromf32" | "fromf64" ->
     (* TryFrom<f32/f64>: args <bits>; decode (thin, here) then the Coq model from the decoded pair on.
        Both flavours must store the canonical pair (C04_from_float_exact_lowest_terms). *)
@@ -173,12 +214,15 @@ let judge_op relaxed name args got =
     let frac = Zar.logand bits (Zar.pred (p2 mb)) in
     let ex = Zar.to_int (Zar.logand (Zar.shift_right bits mb) (Zar.pred (p2 eb))) in
     let neg = Zar.testbit bits (mb + eb) in
-    if ex = (1 lsl eb) - 1 then (match got with "err" :: _ -> pass ~extra:"asis=same cls=nonfinite" () | _ -> fail "err")
+    let gtf = if relaxed then gen_Relaxed_try_from_float else gen_RBig_try_from_float in
+    if ex = (1 lsl eb) - 1 then (match got with
+        | "err" :: _ -> pass ~extra:((match gtf false None with Err _ -> "asis=same" | _ -> "asis=diff") ^ " cls=nonfinite") ()
+        | _ -> fail "err")
     else begin
       let m = if ex = 0 then frac else Zar.add frac (p2 mb) in
       let e = if ex = 0 then 1 - bias - mb else ex - bias - mb in
       let m = if neg then Zar.neg m else m in
-      judge_exact ~extra:(if e >= 0 then "cls=integer" else "cls=dyadic") rat_s
+      judge_exact ~extra:(if e >= 0 then "cls=integer" else "cls=dyadic") ~gen:(gtf (Zar.sign m = 0) (Some (m, Zar.of_int e))) rat_s
         (Ok (from_float_spec m (Zar.of_int e))) (from_float_asis m (Zar.of_int e)) got
     end
   | "from_parts_signed" ->
@@ -187,13 +231,15 @@ let judge_op relaxed name args got =
       ((if relaxed then xfrom_parts_signed_asis else from_parts_signed_asis) (a 0) (a 1))
   | "from_parts_const" ->
     let sg = sign_of_tok (s 0) in
-    fin_rat (from_parts_const_spec sg (a 1) (a 2))
+    (* the regenerated body with its while loop, run with the fuel the theorem names *)
+    fin_rat ~gen:((if relaxed then gen_Relaxed_from_parts_const else gen_RBig_from_parts_const) (fpc_fuel (a 2)) sg (a 1) (a 2))
+      (from_parts_const_spec sg (a 1) (a 2))
       ((if relaxed then xfrom_parts_const_asis else from_parts_const_asis) sg (a 1) (a 2))
   | "split" ->
     (match opnd_spec 0, opnd_asis 0 with
      | Ok x, Ok x' ->
        let (t, f) = split_spec x in
-       let gen = bind (opnd_gen 0) (fun y -> Ok (gsplit y)) in
+       let gen = bind (opnd_gen 0) (fun y -> Ok ((if relaxed then gen_Relaxed_split_at_point else gen_RBig_split_at_point) y)) in
        if not relaxed then judge_exact ~gen q_rat_s (Ok (t, f)) (Ok (split_asis x')) got
        else (match got with
            | [ "ok"; gt; n; d ] when hx t = gt && Zar.sign (z d) > 0 && veqb (z n, z d) f ->
@@ -202,23 +248,87 @@ let judge_op relaxed name args got =
      | r, _ -> expect (res_s rat_s r) got)
   | "trunc" | "floor" | "ceil" | "round" ->
     let fs, fa, fg = (match name with
-        | "trunc" -> trunc_spec, trunc_asis, gtrunc | "floor" -> floor_spec, floor_asis, gfloor
-        | "ceil" -> ceil_spec, ceil_asis, gceil | _ -> round_spec, round_asis, ground) in
+        | "trunc" -> trunc_spec, trunc_asis, (if relaxed then gen_Relaxed_trunc else gen_RBig_trunc)
+        | "floor" -> floor_spec, floor_asis, (if relaxed then gen_Relaxed_floor else gen_RBig_floor)
+        | "ceil" -> ceil_spec, ceil_asis, (if relaxed then gen_Relaxed_ceil else gen_RBig_ceil)
+        | _ -> round_spec, round_asis, (if relaxed then gen_Relaxed_round else gen_RBig_round)) in
     judge_exact ~gen:(bind (opnd_gen 0) (fun x -> Ok (fg x))) hx
       (bind (opnd_spec 0) (fun x -> Ok (fs x))) (bind (opnd_asis 0) (fun x -> Ok (fa x))) got
-  (* parsers: args <string> <n> <d> (the integers the two parts of the string denote; d = 1 without '/') *)
-  | "parse" -> fin_rat (parse_spec (a 1) (a 2)) ((if relaxed then xparse_asis else parse_asis) (a 1) (a 2))
-  | "parse_radix" -> fin_rat (parse_spec (a 2) (a 3)) ((if relaxed then xparse_asis else parse_asis) (a 2) (a 3))
+  (* parsers: args <string> <n> <d>: what the two pieces of the text denote (hex integer, or eN / eI / eU when the integer
+     parser refuses the piece with NoDigits / InvalidDigit / UnsupportedRadix; d = "-" when the text has no '/').
+     The rational layer's own logic (order of the errors, sign of the denominator, zero denominator, reduction) is
+     parse_radix_spec / parse_prefix_spec; model = the parsers regenerated from parse.rs over the same piece answers. *)
+  | "parse" | "parse_radix" ->
+    let k = if name = "parse" then 1 else 2 in
+    let has_slash = s (k + 1) <> "-" in
+    let ip p _ = (match p with PAfter -> piece_res (s (k + 1)) | _ -> piece_res (s k)) in
+    let radix = if name = "parse" then Zar.of_int 10 else a 0 in
+    let gen = (match relaxed, name with
+        | false, "parse" -> gen_RBig_from_str ip has_slash | false, _ -> gen_RBig_from_str_radix ip has_slash radix
+        | true, "parse" -> gen_Relaxed_from_str ip has_slash | true, _ -> gen_Relaxed_from_str_radix ip has_slash radix) in
+    judge_parse relaxed (parse_radix_spec ip has_slash radix) gen "" got
   | "parse_prefix" ->
-    (* answer carries the radix as a further token: args <string> <n> <d> <radix> *)
-    (match List.rev got with
-     | r :: rest when (match got with "ok" :: _ -> true | _ -> false) ->
-       if r <> s 3 then fail ("radix " ^ s 3)
-       else
-         let got' = List.rev rest in
-         if relaxed then judge_value (parse_spec (a 1) (a 2)) (xparse_asis (a 1) (a 2)) got'
-         else judge_exact rat_s (parse_spec (a 1) (a 2)) (parse_asis (a 1) (a 2)) got'
-     | _ -> fin_rat (parse_spec (a 1) (a 2)) ((if relaxed then xparse_asis else parse_asis) (a 1) (a 2)))
+    (* args <string> <n> <d> <radix of the numerator piece> [<radix the denominator piece shows, when it has its own prefix>] *)
+    let has_slash = s 2 <> "-" in
+    let with_radix r = function Ok v -> Ok (v, r) | Err e -> Err e | Panic q -> Panic q | OutOfFuel -> OutOfFuel in
+    let ipp _ = with_radix (a 3) (piece_res (s 1)) in
+    let ipd _ default = with_radix (if List.length args > 4 then a 4 else default) (piece_res (s 2)) in
+    let spec = parse_prefix_spec ipp ipd has_slash in
+    let gen = (if relaxed then gen_Relaxed_from_str_with_radix_prefix else gen_RBig_from_str_with_radix_prefix) ipp ipd has_slash in
+    let strip = function Ok (v, _) -> Ok v | Err e -> Err e | Panic q -> Panic q | OutOfFuel -> OutOfFuel in
+    let suffix = (match spec with Ok (_, r) -> " " ^ hx r | _ -> "") in
+    let gsuffix = (match gen with Ok (_, r) -> " " ^ hx r | _ -> "") in
+    judge_parse relaxed (strip spec) (if gsuffix = suffix then strip gen else OutOfFuel) suffix got
+  (* round 4: clone_from into a slot that holds a value (directly, through Vec::clone_from, through clone_from_slice) and clone:
+     args dn dd sn sd; all five answers are the source *)
+  | "clonefrom" ->
+    (match opnd_spec 0, opnd_spec 2 with
+     | Ok _, Ok src ->
+       let gen = bind (opnd_gen 0) (fun x -> bind (opnd_gen 2) (fun y ->
+           Ok ((if relaxed then gen_Relaxed_clone_from else gen_RBig_clone_from) x y, (if relaxed then gen_Relaxed_clone else gen_RBig_clone) y))) in
+       let five (x, c) = String.concat " " [ rat_s x; rat_s x; rat_s x; rat_s x; rat_s c ] in
+       let fidelity = "asis=" ^ (match gen with Ok p when split_ws ("ok " ^ five p) = got -> "same" | _ -> "diff") in
+       if not relaxed then expect ~extra:fidelity ("ok " ^ five (src, src)) got
+       else (match got with
+           | "ok" :: rest when List.length rest = 10 ->
+             let rec pairs = function n :: d :: r -> (z n, z d) :: pairs r | _ -> [] in
+             if List.for_all (fun r -> Zar.sign (snd r) > 0 && veqb r src) (pairs rest) then pass ~extra:fidelity ()
+             else fail ("value " ^ rat_s src)
+           | _ -> fail ("value " ^ rat_s src))
+     | _, _ -> expect "panic DivideBy0" got)
+  (* TryFrom<T> for IBig / UBig: an RBig converts exactly when it is n/1 (n >= 0 for UBig); the property demands that an
+     integer-valued RBig is never refused; for Relaxed only the model is compared (stored pair n/1), the verdict is on the
+     values that do come back *)
+  | "tryint" ->
+    (match opnd_spec 0, opnd_gen 0 with
+     | Ok (n, d), Ok g ->
+       let tok = function Ok v -> hx v | Err e -> if Zar.to_int e = 1 then "err:OutOfBounds" else "err:LossOfPrecision" | _ -> "?" in
+       let model = [ "ok"; tok ((if relaxed then gen_IBig_try_from_Relaxed else gen_IBig_try_from_RBig) g);
+                     tok ((if relaxed then gen_UBig_try_from_Relaxed else gen_UBig_try_from_RBig) g) ] in
+       let fidelity = "asis=" ^ (if model = got then "same" else "diff") in
+       let is_int = Zar.equal d Zar.one in
+       if not relaxed then
+         expect ~extra:fidelity (String.concat " " [ "ok"; (if is_int then hx n else "err:LossOfPrecision");
+                                                      (if Zar.sign n < 0 then "err:OutOfBounds" else if is_int then hx n else "err:LossOfPrecision") ]) got
+       else (match got with
+           | [ "ok"; i; u ] ->
+             let ok_tok t = String.length t >= 4 && String.sub t 0 4 = "err:" || (is_int && t = hx n) in
+             if ok_tok i && ok_tok u then pass ~extra:(fidelity ^ (if is_int && i <> hx n then " cls=relaxed-integer-refused" else "")) ()
+             else fail "a-conversion-returned-a-different-value"
+           | _ -> fail "ok i u")
+     | r, _ -> expect (res_s rat_s r) got)
+  (* serde: Deserialize from the struct form (the stored pair, possibly unreduced / zero denominator) and from the text n/d *)
+  | "serde" ->
+    let spec = deserialize_spec (a 0) (a 1) in
+    let gen = (if relaxed then gen_serde_Relaxed_deserialize else gen_serde_RBig_deserialize) (a 0) (a 1) in
+    let tok = function Ok r -> rat_s r | _ -> "err -" in
+    let fidelity = "asis=" ^ (if [ "ok" ] @ split_ws (tok gen) @ split_ws (tok gen) = got then "same" else "diff") in
+    (match spec, got with
+     | Ok s_, [ "ok"; n1; d1; n2; d2 ] when relaxed && d1 <> "-" && d2 <> "-" ->
+       if List.for_all (fun r -> Zar.sign (snd r) > 0 && veqb r s_) [ (z n1, z d1); (z n2, z d2) ] then pass ~extra:fidelity ()
+       else fail ("value " ^ rat_s s_)
+     | Ok s_, _ when relaxed -> fail ("value " ^ rat_s s_)
+     | _, _ -> expect ~extra:fidelity (String.concat " " [ "ok"; tok spec; tok spec ]) got)
   | _ -> fail ("unknown-op-" ^ name)
 
 (* ---------------------------------------------------------------------------------------------- *)
@@ -287,15 +397,87 @@ let judge_hist args got =
     | _ -> fail "ok ..."
   end
 
+(* round 4: extended histories (the heval4 functions): in-place forms, clone / clone_from, integers on the left, UBig right, From<IBig> *)
+let hop4_of op i arg dst =
+  let ni = nat_of_int (int_of_hex i) and nd = nat_of_int (int_of_hex dst) in
+  match op with
+  | "adda" -> HAssign (AAdd, ni, nat_of_int (int_of_hex arg)) | "suba" -> HAssign (ASub, ni, nat_of_int (int_of_hex arg))
+  | "mula" -> HAssign (AMul, ni, nat_of_int (int_of_hex arg)) | "diva" -> HAssign (ADiv, ni, nat_of_int (int_of_hex arg))
+  | "rema" -> HAssign (ARem, ni, nat_of_int (int_of_hex arg))
+  | "clone" -> HClone (ni, nd) | "clonefrom" -> HCloneFrom (ni, nd)
+  | "laddi" -> HIntL (IAdd, ni, z arg, nd) | "lsubi" -> HIntL (ISub, ni, z arg, nd)
+  | "lmuli" -> HIntL (IMul, ni, z arg, nd) | "ldivi" -> HIntL (IDiv, ni, z arg, nd)
+  | "laddu" -> HIntLU (IAdd, ni, z arg, nd) | "lsubu" -> HIntLU (ISub, ni, z arg, nd)
+  | "lmulu" -> HIntLU (IMul, ni, z arg, nd) | "ldivu" -> HIntLU (IDiv, ni, z arg, nd)
+  | "subu" -> H3 (HIntU (ISub, ni, z arg, nd))
+  | "fromi" -> HFromInt (z arg, nd)
+  | _ -> H3 (hop_of op i arg dst)
+
+let judge_hist4 args got =
+  let k = int_of_hex (List.hd args) in
+  let rest = List.tl args in
+  let rec pairs n l = if n = 0 then [] else match l with a :: b :: r -> (z a, z b) :: pairs (n - 1) r | _ -> failwith "pool" in
+  let init = pairs k rest in
+  let steps = drop (2 * k) rest in
+  if not (List.for_all (fun (n, d) -> match from_parts_spec n d with Ok _ -> true | _ -> false) init) then expect "panic DivideBy0" got
+  else begin
+    let unok = function Ok r -> r | _ -> failwith "unok" in
+    let ps = ref (List.map (fun (n, d) -> unok (from_parts_spec n d)) init) in
+    let pg = ref (List.map (fun (n, d) -> unok (gen_RBig_from_parts n d)) init) in
+    let pgx = ref (List.map (fun (n, d) -> unok (gen_Relaxed_from_parts n d)) init) in
+    let zero = (Zar.zero, Zar.one) in
+    match got with
+    | "ok" :: toks ->
+      let rec go t steps toks same =
+        match steps, toks with
+        | [], "|" :: final ->
+          (* the pools at the end: RBig slots are the specification's, Relaxed slots have the same values; then the agreement flag *)
+          let rec chk sp gp gxp toks same = (match sp, gp, gxp, toks with
+              | [], _, _, [ flag ] -> if flag = "1" then pass ~extra:("asis=" ^ (if same then "same" else "diff") ^ " cls=steps4-" ^ string_of_int t) ()
+                else fail "final:pools-compare-equal-and-is_int-agrees"
+              | sv :: sr, gv :: gr, gxv :: gxr, n :: d :: xn :: xd :: toks' ->
+                if [ n; d ] <> [ hx (fst sv); hx (snd sv) ] then fail ("final-pool:rbig:" ^ hx (fst sv) ^ "_" ^ hx (snd sv))
+                else if not (Zar.sign (z xd) > 0 && veqb (z xn, z xd) sv) then fail ("final-pool:relaxed-value:" ^ hx (fst sv) ^ "_" ^ hx (snd sv))
+                else chk sr gr gxr toks' (same && rat_s gv = n ^ " " ^ d && rat_s gxv = xn ^ " " ^ xd)
+              | _ -> fail "history-answer-shape") in
+          chk !ps !pg !pgx final same
+        | op :: i :: arg :: dst :: steps', r1 :: r2 :: x1 :: x2 :: toks' ->
+          let h = hop4_of op i arg dst in
+          let spec = heval4_spec !ps h in
+          let tok_of = function Ok (n, d) -> [ hx n; hx d ] | Panic r -> [ "panic:" ^ reason_s r; "-" ] | _ -> [ "?"; "?" ] in
+          let want = tok_of spec in
+          if [ r1; r2 ] <> want then fail (Printf.sprintf "step%d:%s:rbig:%s" t op (String.concat "_" want))
+          else begin
+            let xok = (match spec with
+                | Ok s -> (x1 <> "" && x2 <> "-" && Zar.sign (z x2) > 0 && veqb (z x1, z x2) s)
+                | _ -> [ x1; x2 ] = want) in
+            if not xok then fail (Printf.sprintf "step%d:%s:relaxed-value:%s" t op (String.concat "_" want))
+            else begin
+              let same = same && tok_of (heval4_gen !pg h) = [ r1; r2 ] && tok_of (heval4_xgen !pgx h) = [ x1; x2 ] in
+              ps := hstep4 heval4_spec zero !ps h;
+              pg := hstep4 heval4_gen gen_RBig_default !pg h;
+              pgx := hstep4 heval4_xgen gen_Relaxed_default !pgx h;
+              go (t + 1) steps' toks' same
+            end
+          end
+        | _ -> fail "history-answer-shape"
+      in
+      go 0 steps toks true
+    | _ -> fail "ok ..."
+  end
+
 let judge op args got =
   match op with
   | "hist" -> judge_hist args got
+  | "hist4" -> judge_hist4 args got
   | "xcanon" ->
     (* Relaxed::from_parts(n, d).canonicalize() is the canonical rational *)
     judge_exact rat_s (from_parts_spec (z (List.nth args 0)) (z (List.nth args 1)))
+      ~gen:(bind (gen_Relaxed_from_parts (z (List.nth args 0)) (z (List.nth args 1))) (fun x -> Ok (gen_Relaxed_canonicalize x)))
       (bind (xfrom_parts_asis (z (List.nth args 0)) (z (List.nth args 1))) (fun x -> Ok (reduce_asis x))) got
   | "rrelax" ->
     judge_exact rat_s (from_parts_spec (z (List.nth args 0)) (z (List.nth args 1)))
+      ~gen:(bind (gen_RBig_from_parts (z (List.nth args 0)) (z (List.nth args 1))) (fun x -> Ok (gen_RBig_relax x)))
       (from_parts_asis (z (List.nth args 0)) (z (List.nth args 1))) got
   | _ ->
     let kind = String.sub op 0 1 and name = String.sub op 1 (String.length op - 1) in
